@@ -233,4 +233,7 @@ def check(ctx) -> Result:
                 flipped.append(x)
     res.add(not flipped, "K-conj-density", "_calculate_density_matrix", ctx.func(UT, "_calculate_density_matrix").site(flipped[0]) if flipped else ctx.func(UT, "_calculate_density_matrix").site(), "_calculate_density_matrix",
             "Pauli matrices enter the expansion as they are", f"a Pauli factor enters the expansion transposed or conjugated (`{src(flipped[0])[:60] if flipped else ''}`): Y^T = -Y, so every term containing Y changes sign", construct=src(flipped[0])[:100] if flipped else "")
+    from ..rules import rz_falsy
+    nz = rz_falsy.none_checks(ctx, res, "C15", ())
+    res.floor("Z functions scanned", nz, 3)
     return res
